@@ -190,3 +190,12 @@ def run(cx):
         check_ms_getter(ob, prog, "anemo::config::Config::connect_timeout", "connect_timeout_ms")
         # (the forwarder handle_incoming is always inlined into the accept arm of the manager loop)
         check_callers(ob, prog, TASK, [f"{CM}::ConnectionManager::start"], exact=1, what="handle_incoming_task")
+
+    with cx.ob("C10.5", "R-MUSTPASS", "the count the limit is compared with is current: a connection that ended leaves the peer map before anything else happens at handler exit (removal precedes the shutdown of its request tasks) - C09.3 re-evaluated") as ob:
+        from . import c09
+        sub = cx.__class__("C10", prog, cx.tier, cx.config, cx.tree, repo=cx.repo)
+        c09.run(sub)
+        w = [x for x in sub.obs if x.oid in ['C09.3']]
+        ob.count(sum(x.evals for x in w))
+        bad = [v for x in w for v in x.violations]
+        ob.require(len(w) == 1 and not bad, "stale-count/removed-first-at-handler-exit", "a finished connection can stay counted while its request tasks are being shut down: " + "; ".join(str(v.msg) for v in bad)[:300], "anemo::network::request_handler::InboundRequestHandler::start")
